@@ -32,6 +32,8 @@ type Config struct {
 	// TxIDBase, when set, seeds every ledger with one earlier transaction carrying that id, as
 	// a ledger with a long history would have: ids beyond 2^24 / 2^53 reach the decoders.
 	TxIDBase string `json:"txIdBase,omitempty"`
+	// FineSites: statement-level scheduling points enabled in this run (fine-grained mode only).
+	FineSites []string `json:"fineSites,omitempty"`
 }
 
 type GenPlan struct {
